@@ -127,6 +127,9 @@ var FieldDeepEqualContainer = `
 		{{$src}} := {{.Source}}[{{$idx}}]
 		{{- end}}
 		{{- $ctx := (.ValCtx.WithTarget "v").WithSource $src}}
+		{{- if and .ValCtx.Type.Category.IsStructLike Features.ValueTypeForSIC}}
+		{{- $ctx = $ctx.WithSource (printf "&%s" $src)}}
+		{{- end}}
 		{{- template "FieldDeepEqual" $ctx}}
 	}
 {{- end}}{{/* "FieldDeepEqualContainer" */}}
